@@ -19,6 +19,12 @@ def run(ctx):
     binary = vlib.build_harness(ctx)
     quick = ctx.tier == "quick"
     vlib.design_check(ctx, "mailbox", "MailboxFS", "MailboxFS_temprename.cfg")
+    # sequences of operations with crashes and restarts in between (what a later operation does to the leftovers of an
+    # interrupted one): the code's protocol keeps a complete message complete, the link-then-unlink publication does not
+    vlib.design_check(ctx, "mailbox", "MailboxFSSeq", "MailboxFSSeq_temprename.cfg")
+    dev2 = vlib.tlc(ctx, "mailbox", "MailboxFSSeq", "MailboxFSSeq_linkunlink.cfg")
+    if dev2.violated != "StaysComplete":
+        raise vlib.Undecided("MailboxFSSeq_linkunlink.cfg no longer violates StaysComplete")
     dev = vlib.tlc(ctx, "mailbox", "MailboxFS", "MailboxFS_inplace.cfg")
     if dev.violated not in ("FoldersLoad", "DedupSound"):
         raise vlib.Undecided("WriteInPlace configuration no longer violates the recovery invariants")
